@@ -90,17 +90,19 @@ Proof. intros H. destruct (beq a b) eqn:E; [|reflexivity]. apply beq_eq in E. co
 Lemma dt_vobj_vobject d : dt_vobj d = dt_vobject d.
 Proof. destruct d; reflexivity. Qed.
 
-Lemma lf_hack_nonempty d x : x <> [] -> lf_hack d x <> [].
+Lemma lf_hack_nonempty d P x : x <> [] -> lf_hack d P x <> [].
 Proof.
   unfold lf_hack. intros H. destruct (dt_vobj d); [|exact H]. destruct x as [|y t]; [now elim H|].
   destruct y as [|q]; [destruct t; discriminate|]. repeat (destruct q as [q|q|]; try (destruct t; discriminate)).
+  destruct P; destruct t; discriminate.
 Qed.
 
-Lemma lf_hack_not_lf d x : dt_vobject d = true -> beq (lf_hack d x) [10] = false.
+(* when the text before does not end with a CR, what the hack returns is never a lone LF *)
+Lemma lf_hack_not_lf d x : dt_vobject d = true -> beq (lf_hack d false x) [10] = false.
 Proof.
   intros V. unfold lf_hack. rewrite dt_vobj_vobject, V. destruct (beq x [10]) eqn:B.
   - apply beq_eq in B. subst x. reflexivity.
-  - now rewrite (lf_hack_id x B).
+  - now rewrite (lf_hack_id_cr false x B).
 Qed.
 
 Lemma app_not_lf (a b : bytes) : a <> [] -> b <> [] -> beq (a ++ b) [10] = false.
@@ -208,14 +210,13 @@ Section Image.
   Proof. unfold text_canon. destruct b; [discriminate|discriminate]. Qed.
 
   (* a piece of text arrives in a node that is not binary-flagged and gets no CDATA section added *)
-  Lemma add_text_ok up f d x :
-    frame_ok up f -> cache_ok f -> is_binary_frame f = false -> syncml_data_type (f :: up) = Some d -> x <> [] ->
+  Lemma add_text_ok up f d x' :
+    frame_ok up f -> cache_ok f -> is_binary_frame f = false -> syncml_data_type (f :: up) = Some d -> x' <> [] ->
+    (head_is_text (f_rkids f) = false -> (dt_vobject d && beq x' [10]) = false) ->        (* a NEW text node is not a lone LF *)
     (negb (dt_plain d) && negb (is_cdata_frame f) && negb (first_kid_is_cdata f)) = false ->
-    frame_ok up (add_text_kid f (lf_hack d x)).
+    frame_ok up (add_text_kid f x').
   Proof.
-    intros (E & K) C B DT NX CL. pose proof (nonbinary_no_content f C B) as NC. pose proof (no_content_plain f NC) as PL.
-    pose proof (lf_hack_nonempty d x NX) as NX'. set (x' := lf_hack d x) in *.
-    assert (NL : (dt_vobject d && beq x' [10]) = false) by (destruct (dt_vobject d) eqn:V; [subst x'; now rewrite lf_hack_not_lf|reflexivity]).
+    intros (E & K) C B DT NX' HNL CL. pose proof (nonbinary_no_content f C B) as NC. pose proof (no_content_plain f NC) as PL.
     unfold add_text_kid. destruct (f_rkids f) as [|y r] eqn:R.
     2: destruct y as [tg0 a0 k0|t|k0| |lid0 rt0].
     3:{ (* joined with the text before *)
@@ -230,7 +231,8 @@ Section Image.
         rewrite (app_not_lf (t0 :: t1) x' NT NX'). rewrite andb_false_r in *. cbn [negb] in *. rewrite andb_true_r in *.
         destruct (with_content (f_kind f) None); [|reflexivity].
         destruct (dt_plain d'); [reflexivity|]. cbn [orb] in *. apply andb_true_iff in K2. exact (proj1 K2). }
-    all: apply frame_ok_add_kid; [split; [exact E|rewrite R; exact K]|]; rewrite R; cbn [node_canon]; unfold text_canon;
+    all: pose proof (HNL eq_refl) as NL; clear HNL;
+      apply frame_ok_add_kid; [split; [exact E|rewrite R; exact K]|]; rewrite R; cbn [node_canon]; unfold text_canon;
       rewrite kind_binary_with_content, <- is_binary_kind, B; cbn [head_is_text negb andb];
       (destruct x' as [|z w] eqn:X'; [now elim NX'|]); rewrite <- X'; try rewrite <- X' in NL; cbn [negb andb];
       rewrite PL, <- R, frame_eta, DT;
@@ -258,7 +260,8 @@ Section Image.
         destruct t as [|t0 t1]; [now elim NT|]. cbn [negb andb] in K2 |- *.
         destruct (head_is_text r); [discriminate|]. cbn [negb andb] in K2 |- *. rewrite andb_true_r in *.
         unfold bytes_okb in *. rewrite forallb_app, K2, OD. reflexivity. }
-    all: apply frame_ok_add_kid; [split; [exact E|rewrite R; exact K]|]; rewrite R; cbn [node_canon]; unfold text_canon;
+    all:
+      apply frame_ok_add_kid; [split; [exact E|rewrite R; exact K]|]; rewrite R; cbn [node_canon]; unfold text_canon;
       rewrite kind_binary_with_content, <- is_binary_kind, B, NDt, OD; cbn [head_is_text negb andb];
       (destruct dec; [now elim ND|reflexivity]).
   Qed.
@@ -332,6 +335,33 @@ Section Image.
     destruct (beq (tag_xml_name tg) s_Data); [reflexivity|]. intros H; injection H as <-. discriminate.
   Qed.
 
+  Lemma prev_nontext f up : is_binary_frame f = false -> head_is_text (f_rkids f) = false -> prev_ends_cr (f :: up) = false.
+  Proof. unfold prev_ends_cr. intros -> H. destruct (f_rkids f) as [|[] r]; try reflexivity. discriminate. Qed.
+
+  (* when the front end adds a CDATA section, the element's last child is not a text *)
+  Lemma pushing_no_text_tail l up f d :
+    frame_ok l up f -> no_content f -> is_cdata_frame f = false -> syncml_data_type (f :: up) = Some d ->
+    dt_plain d = false -> first_kid_is_cdata f = false -> head_is_text (f_rkids f) = false.
+  Proof.
+    intros (E & K) NC CF DT NP NF. destruct (f_rkids f) as [|y r] eqn:R; [reflexivity|].
+    destruct y as [tg0 a0 k0|t|k0| |lid0 rt0]; try reflexivity. exfalso.
+    cbn [rev] in K. rewrite kids_canon_snoc, rev_involutive in K. apply andb_true_iff in K. destruct K as (_ & K2).
+    cbn [node_canon] in K2. unfold text_canon in K2. rewrite (no_content_plain f NC) in K2.
+    assert (FT : frame_tag f <> None) by (unfold frame_tag; unfold is_cdata_frame in CF; destruct (f_kind f); [discriminate|discriminate]).
+    assert (DT2 : syncml_data_type (mk_frame (f_kind f) r :: up) = Some d).
+    { rewrite <- DT. apply dt_same_tag; [reflexivity|exact FT]. }
+    rewrite DT2 in K2. destruct t; [discriminate|]. cbn [negb andb] in K2. destruct (head_is_text r); [discriminate|]. cbn [negb andb] in K2.
+    unfold is_cdata_frame in CF. destruct (f_kind f) as [tg a ct|] eqn:KF; [|discriminate].
+    assert (ISD : kind_is_data (FElt tg a ct) = true).
+    { rewrite <- KF. apply (dt_nonplain_is_data f up d); auto. unfold is_cdata_frame. now rewrite KF. }
+    destruct (kind_binary (FElt tg a ct)).
+    - (* binary-flagged: the text is canonical only when the element is not named Data, and the data type says it is *)
+      rewrite ISD in K2. rewrite andb_false_r in K2. discriminate.
+    - rewrite NP in K2. cbn [orb] in K2. apply andb_true_iff in K2. destruct K2 as (FK & _).
+      unfold first_kid_is_cdata, kids_of in *. cbn [f_rkids] in FK. rewrite R in NF. rewrite !rev_append_rev, !app_nil_r in *. cbn [rev] in NF.
+      destruct (rev r) as [|z w]; [discriminate|]. cbn [app] in NF. destruct z; discriminate.
+  Qed.
+
   Lemma chars_inv c ch : CInv c -> step_clause c (EvCharacters ch) = 0 -> CInv (step c (EvCharacters ch)).
   Proof.
     intros I CL E'.
@@ -351,8 +381,8 @@ Section Image.
     assert (NX : ch <> []) by discriminate.
     destruct (negb (dt_plain d) && negb (is_cdata_frame f) && negb (first_kid_is_cdata f)) eqn:PU.
     - (* the front end adds a CDATA section *)
-      apply andb_true_iff in PU. destruct PU as (PU & _). apply andb_true_iff in PU. destruct PU as (NP & NC).
-      apply negb_true_iff in NP. apply negb_true_iff in NC.
+      apply andb_true_iff in PU. destruct PU as (PU & NF). apply andb_true_iff in PU. destruct PU as (NP & NC).
+      apply negb_true_iff in NP. apply negb_true_iff in NC. apply negb_true_iff in NF.
       pose proof (dt_nonplain_is_data f up d NC DT NP) as ISD.
       assert (B : is_binary_frame f = false).
       { destruct F as (EO & _). rewrite is_binary_kind. unfold kind_is_data in ISD. destruct (f_kind f) as [tg a ct|]; [|reflexivity].
@@ -366,7 +396,10 @@ Section Image.
       { split; [|reflexivity]. cbn [C0 f_kind elt_ok]. now rewrite <- is_binary_kind, B. }
       unfold store. change (is_binary_frame C0) with false. cbv iota.
       cbn [spine_ok anc_ok]. split; [|split; [|split; [exact F|split; [now apply nonbinary_no_content|exact A]]]].
-      + apply (add_text_ok l (f :: up) C0 d ch F0 Logic.I eq_refl DT0 NX). now rewrite andb_false_r.
+      + apply (add_text_ok l (f :: up) C0 d _ F0 Logic.I eq_refl DT0 (lf_hack_nonempty d _ ch NX)); [|now rewrite andb_false_r].
+        intros _. destruct (dt_vobject d) eqn:V; [|reflexivity]. cbn [andb].
+        rewrite (prev_nontext f up B (pushing_no_text_tail l up f d F (nonbinary_no_content f C B) NC DT NP NF)).
+        now apply lf_hack_not_lf.
       + unfold cache_ok. now rewrite add_text_kid_kind.
     - cbn [c_root c_spine c_lang c_skip_lvl set_spine]. split; [exact R|]. exists l. split; [exact L|]. split; [|intros X; now elim X].
       cbn [spine_ok]. unfold store. destruct (is_binary_frame f) eqn:B.
@@ -374,7 +407,9 @@ Section Image.
         * split; [now apply (frame_ok_content l up f tg a ct)|]. split; [|exact A].
           unfold cache_ok, is_binary_frame in *. cbn [f_kind]. rewrite KF in B. exact B.
         * auto.
-      + split; [apply add_text_ok; auto|]. split; [|exact A].
+      + split; [apply (add_text_ok l up f d); auto; [now apply lf_hack_nonempty|]|].
+        { intros HT. destruct (dt_vobject d) eqn:V; [|reflexivity]. cbn [andb]. rewrite (prev_nontext f up B HT). now apply lf_hack_not_lf. }
+        split; [|exact A].
         unfold cache_ok. rewrite add_text_kid_kind. pose proof (nonbinary_no_content f C B) as NC. unfold no_content in NC.
         destruct (f_kind f) as [tg a [ct|]|]; [contradiction|exact Logic.I|exact Logic.I].
   Qed.
@@ -605,11 +640,7 @@ Section Image.
   Proof.
     unfold on_characters. destruct (negb _); [reflexivity|]. destruct (0 <? _); [reflexivity|].
     destruct (syncml_data_type _) as [d|]; [|reflexivity].
-    destruct (match d with
-              | DT_DIRECTORY_VCARD | DT_VCALENDAR | DT_VCARD | DT_VOBJECT => (match ch with [10] => [13; 10] | _ => ch end, true)
-              | DT_CLEAR => (ch, true)
-              | _ => (ch, false)
-              end) as [ch1 want].
+    match goal with |- c_lang (let '(ch1, want_cdata) := ?p in _) = _ => destruct p as [ch1 want] end.
     set (c1 := match c_spine c with
                | f :: _ => if want && negb (is_cdata_frame f) && negb (first_kid_is_cdata f) then push_frame c (mk_frame FCData []) E_INTERNAL else c
                | [] => c
